@@ -289,7 +289,7 @@ def run_vector(vec, emb, pool, eid, recv=None, arg=None):
         ret = None
     rettier = ret if isinstance(ret, (textgrid.IntervalTier, textgrid.PointTier)) else None
     ev = {
-        "id": eid, "op": vec["op"], "args": vec["args"], "pre": pre, "arg": argpre,
+        "id": eid, "fam": "tier", "op": vec["op"], "args": vec["args"], "pre": pre, "arg": argpre,
         "st": st, "pe": pe, "ret": pj.tier(rettier), "post": pj.tier(recv),
         "argpost": pj.tier(arg) if arg is not None else NONE,
         "out": buf.getvalue() != "", "arith": True, "exactfp": emb.dyadic,
